@@ -30,6 +30,11 @@ type plan struct {
 	Rehash  bool
 	Inject  bool // answer one shard once with a retriable NOT_LEADER / NOT_COORDINATOR
 	Parts   []int32
+	// Leaderless partition numbers: the client's view of the cluster (Metadata responses are
+	// rewritten on the wire) shows them with leader -1, with LEADER_NOT_AVAILABLE or with no
+	// error code at all.
+	Leaderless     []int
+	LeaderlessCode bool
 }
 
 var kinds = []string{"ListOffsets", "DeleteRecords", "OffsetForLeaderEpoch", "DescribeProducers", "DescribeGroups", "DeleteGroups", "OffsetFetch", "FindCoordinator", "DescribeTransactions"}
@@ -53,6 +58,12 @@ func genPlan(t *rapid.T) plan {
 	nm := rapid.IntRange(0, 4).Draw(t, "nmoves")
 	for i := 0; i < nm; i++ {
 		p.Moves = append(p.Moves, [3]int{rapid.IntRange(0, 2).Draw(t, "mt"), rapid.IntRange(0, 5).Draw(t, "mp"), rapid.IntRange(0, p.Brokers-1).Draw(t, "node")})
+	}
+	if rapid.IntRange(0, 2).Draw(t, "leaderless?") == 0 {
+		// metadata shows these partition numbers (of every topic) without a leader: -1 and, in half
+		// of the cases, no error code either (an election in progress as some brokers report it)
+		p.Leaderless = rapid.SliceOfNDistinct(rapid.IntRange(0, 5), 1, 3, rapid.ID[int]).Draw(t, "leaderless")
+		p.LeaderlessCode = rapid.Bool().Draw(t, "leaderless-code")
 	}
 	p.Rehash = rapid.Bool().Draw(t, "rehash")
 	p.Inject = rapid.Bool().Draw(t, "inject")
@@ -297,6 +308,35 @@ func TestShardedAccounting(t *testing.T) {
 		var moved bool
 		bubble.Run(t, rt, func(e *bubble.Env) {
 			e.StartCluster(bubble.ClusterOpts{Brokers: p.Brokers, Topics: map[string]int32{"ta": p.Parts[0], "tb": p.Parts[1], "tc": p.Parts[2]}})
+			if len(p.Leaderless) > 0 {
+				less := map[int32]bool{}
+				for _, n := range p.Leaderless {
+					less[int32(n)] = true
+				}
+				withCode := p.LeaderlessCode
+				e.Net.AddRule(bubble.Rule{Key: 3, Always: true, Act: bubble.RewriteResponse, Rewrite: func(ri *bubble.ReqInfo, body []byte) []byte {
+					resp := kmsg.NewPtrMetadataResponse()
+					resp.Version = ri.Version
+					hdr := 4
+					if resp.IsFlexible() {
+						hdr = 5
+					}
+					if len(body) < hdr || resp.ReadFrom(body[hdr:]) != nil {
+						return nil
+					}
+					for i := range resp.Topics {
+						for j := range resp.Topics[i].Partitions {
+							if pp := &resp.Topics[i].Partitions[j]; less[pp.Partition] {
+								pp.Leader = -1
+								if withCode {
+									pp.ErrorCode = kerr.LeaderNotAvailable.Code
+								}
+							}
+						}
+					}
+					return resp.AppendTo(append([]byte(nil), body[:hdr]...))
+				}})
+			}
 			cl := e.NewClient(kgo.MetadataMinAge(time.Second), kgo.MetadataMaxAge(time.Minute)) // caches stay stale across the moves
 			ctx, cancel := context.WithTimeout(context.Background(), 3*time.Minute)
 			defer cancel()
@@ -430,6 +470,9 @@ func TestShardedAccounting(t *testing.T) {
 		})
 		ev.Case(fmt.Sprintf("%+v", p), nshards >= 2 || moved)
 		ev.Class("kind:" + p.Kind)
+		if len(p.Leaderless) > 0 {
+			ev.Class("metadata-shows-partitions-without-a-leader")
+		}
 		if nshards >= 2 {
 			ev.Class("split-into-2+-shards")
 		}
